@@ -1,0 +1,14 @@
+//go:build verif
+
+// Contracts for package parser, read by /verif/govc (comment-only file; excluded from every build without the tag "verif").
+package parser
+
+// participle: a parse that reports no error returns the root node (library fact, trusted).
+//@ func ParseType
+//@   trusted
+//@   ensures result1 == nil ==> result0 != nil
+//@ func ParsePattern
+//@   trusted
+//@   ensures result1 == nil ==> result0 != nil
+// The grammar `(@@ | '(' @@ ')')` of Type sets Named or Sub on every node it builds (library fact, trusted).
+//@ type-invariant *parser.Type t :: t.Named != nil || t.Sub != nil
